@@ -103,6 +103,48 @@ def is_opaque(e: ast.AST) -> bool:
     return isinstance(e, ast.Name) and e.id.startswith('<')
 
 
+def expand_inlined(cfg: CFG, expr: ast.expr) -> ast.expr:
+    """Replace calls of inlined single-return helpers by their return expression
+    (parameters substituted by the call's arguments)."""
+    iv = getattr(cfg, 'inline_values', None)
+    if not iv:
+        return expr
+
+    class X(ast.NodeTransformer):
+        def visit_Call(self, node):
+            hit = iv.get(id(node))
+            if hit is not None:
+                rexpr, binding = hit
+                return expand_inlined(cfg, subst(rexpr, {k: expand_inlined(cfg, v) for k, v in binding.items()}))
+            self.generic_visit(node)
+            return node
+    hit = iv.get(id(expr))
+    if hit is not None:
+        rexpr, binding = hit
+        return expand_inlined(cfg, subst(rexpr, {k: expand_inlined(cfg, v) for k, v in binding.items()}))
+    # only copy when something below is inlined
+    if not any(id(n) in iv for n in ast.walk(expr)):
+        return expr
+    # NodeTransformer mutates: work on the original node identities to find hits, then clone
+    def rebuild(node):
+        if isinstance(node, list):
+            return [rebuild(x) for x in node]
+        if not isinstance(node, ast.AST):
+            return node
+        h = iv.get(id(node))
+        if h is not None:
+            rexpr, binding = h
+            return expand_inlined(cfg, subst(rexpr, {k: expand_inlined(cfg, v) for k, v in binding.items()}))
+        new = type(node)()
+        for f, v in ast.iter_fields(node):
+            setattr(new, f, rebuild(v))
+        for a in ('lineno', 'col_offset', 'end_lineno', 'end_col_offset'):
+            if hasattr(node, a):
+                setattr(new, a, getattr(node, a))
+        return new
+    return rebuild(expr)
+
+
 def sym_env(cfg: CFG, path: List[Edge], init: Optional[Dict[str, ast.expr]] = None,
             upto: Optional[Node] = None) -> Dict[str, ast.expr]:
     """Symbolic environment after walking *path* (stores of nodes on the path
@@ -126,7 +168,9 @@ def sym_env(cfg: CFG, path: List[Edge], init: Optional[Dict[str, ast.expr]] = No
                 # bound by unpacking / iteration: the name denotes itself
                 env.pop(name, None)
             else:
-                env[name] = subst(v, env)
+                if n.meta.get('inlined_param'):
+                    continue   # helper parameters are substituted by expand_inlined
+                env[name] = subst(expand_inlined(cfg, v), env)
         elif n.kind == 'del_name':
             env.pop(n.meta['name'], None)
     return env
